@@ -34,7 +34,9 @@ Entries == {
     E(hello, <<51>>, <<unstable>>, << <<urgency, low>> >>, Body5, m1, D(5, 13, 6, 2025, 9, 8, 7, FALSE, 2, 0)),
     \* an option value with blanks and brackets inside, as dpkg writes an urgency comment: "urgency=medium (HIGH for users)"
     E(hello, <<52>>, <<unstable>>, << <<urgency, medium \o <<SP, 40, 72, 73, 71, 72, SP, 102, 111, 114, SP, 117, 115, 101, 114, 115, 41>>>>, <<binonly, yes>> >>, Body1, m1,
-      D(1, 2, 1, 2006, 15, 4, 5, FALSE, 1, 0)) }
+      D(1, 2, 1, 2006, 15, 4, 5, FALSE, 1, 0)),
+    \* an option value that holds the '=' itself: key "note", value "a=b"
+    E(hello, <<53>>, <<unstable>>, << <<urgency, low>>, <<<<110, 111, 116, 101>>, <<97, 61, 98>>>> >>, Body1, m1, D(1, 2, 1, 2006, 15, 4, 5, TRUE, 2, 0)) }
 Models == UNION {[1..n -> Entries] : n \in 1..MaxEntries}
 Vec(es, lead, gap, final) ==
     LET r == RenderChangelog(es, lead, gap, final) IN
